@@ -134,6 +134,19 @@ def run(ctx):
                 if rng.random() < 0.6:
                     pens[k] = rng.choice([0.5, 1, 2, 4, 8, 12]) * scale
         ka, kb = rng.choice([(1, 1), (1, 1), (2, 1), (1, 3), (2, 2), (3, 3)])
+        if rng.random() < 0.35:
+            # targeted stream: one sequence against a group, a single internal insertion of 4..12 residues near a Hirschberg
+            # midpoint, equal ends (exercises the sequence-profile kernels and the gap-extension/terminal distinction)
+            alpha = gen.AA if kind == "protein" else (gen.RNA if kind == "rna" else gen.DNA)
+            n = rng.choice([24, 40, 64, 100, 180])
+            a = gen.rand_seq(rng, alpha, n)
+            pos = n // 2 + rng.randint(-n // 4, n // 4)
+            ins = gen.rand_seq(rng, alpha, rng.randint(4, 12))
+            b = a[:pos] + ins + a[pos:]
+            if rng.random() < 0.5:
+                a, b = b, a
+            ka, kb = rng.choice([(1, 2), (2, 1), (1, 3), (3, 1)])
+            pens = [-1, -1, -1]
         todo.append(dict(kind=kind, a=a, b=b, t=t, pens=pens, ka=ka, kb=kb, bt=0 if kind == "protein" else 1))
     conv = []
     for d in todo:
